@@ -11,7 +11,7 @@
 (*     support header #defines / the type header static_asserts (bool -> 0/1, int -> itself, string ->     *)
 (*     CRC-32 of its UTF-8 bytes), with CRC-32 written out bit by bit so that TLC computes the very        *)
 (*     numbers that appear in the generated headers and can look for collisions.                           *)
-EXTENDS Naturals, Sequences, FiniteSets
+EXTENDS Naturals, Sequences, FiniteSets, TLC
 
 (* ------------------------------------------------------------------------------------------------------ *)
 (* text literals (code points)                                                                             *)
@@ -193,9 +193,15 @@ Poly == <<60856, 33568>>                                             \* 0xEDB883
 
 RECURSIVE Steps(_, _)
 Steps(p, n) == IF n = 0 THEN p ELSE Steps(IF (p[2] % 2) = 1 THEN XorW(Shr1(p), Poly) ELSE Shr1(p), n - 1)
+\* byte-at-a-time form of the same division: Tab[n] = the eight bit steps applied to the byte n (evaluated once)
+CrcTab == TLCEval([n \in 0..255 |-> Steps(<<0, n>>, 8)])
+Shr8(p) == <<p[1] \div 256, (p[2] \div 256) + (256 * (p[1] % 256))>>
 RECURSIVE CrcBytes(_, _, _)
-CrcBytes(bs, i, crc) == IF i > Len(bs) THEN crc ELSE CrcBytes(bs, i + 1, Steps(XorW(crc, <<0, bs[i]>>), 8))
+CrcBytes(bs, i, crc) ==
+    IF i > Len(bs) THEN crc ELSE CrcBytes(bs, i + 1, XorW(CrcTab[Xor16(crc[2] % 256, bs[i], 8)], Shr8(crc)))
 Crc32(bs) == XorW(CrcBytes(bs, 1, Ones), Ones)                       \* zlib.crc32, as limbs
+RECURSIVE CrcBitwise(_, _, _)                                        \* the defining bit-serial form (cross-checked below)
+CrcBitwise(bs, i, crc) == IF i > Len(bs) THEN XorW(crc, Ones) ELSE CrcBitwise(bs, i + 1, Steps(XorW(crc, <<0, bs[i]>>), 8))
 
 Limbs(p) == p
 Keep(p, bits) ==                                                     \* only the low `bits` bits (32 = all)
@@ -215,7 +221,12 @@ Render(val, hashbits) ==
     IF val.t = "s" THEN Limbs(Keep(Crc32(Utf8(val.v, 1)), hashbits))
     ELSE <<val.v[1] \div 65536, val.v[1] % 65536>>
 
+AllDocVals == UNION {UNION {DocVals(l, k) : k \in KeySet(l)} : l \in LangsAll}
+DocRender == TLCEval([x \in AllDocVals |-> Render(x, 32)])             \* evaluated once
+Render32(x) == IF x \in AllDocVals THEN DocRender[x] ELSE Render(x, 32)
+
 ASSUME Limbs(Crc32(T_check)) = <<52212, 14630>>      \* 0xCBF43926, the catalogued check value of CRC-32/ISO-HDLC
+ASSUME CrcBitwise(T_check, 1, Ones) = <<52212, 14630>> /\ CrcBitwise(T_tplCetl, 1, Ones) = Crc32(T_tplCetl)
 ASSUME Render(S(T_Any), 32) = <<23742, 45396>>       \* 1556001108, the example in the filter's documentation
 ASSUME Render(S(T_empty), 32) = <<0, 0>>
 ASSUME Render(Bv(TRUE), 32) = <<0, 1>> /\ Render(Bv(FALSE), 32) = <<0, 0>>
@@ -230,4 +241,6 @@ NoCollision(lang, hashbits) ==
 IFired(lang, a, b, hashbits) ==
     LET ea == Expand(lang, a)  eb == Expand(lang, b)
     IN {k \in DOMAIN ea : Render(ea[k], hashbits) # Render(eb[k], hashbits)}
+IFired32(lang, a, b) ==
+    LET ea == Expand(lang, a)  eb == Expand(lang, b) IN {k \in DOMAIN ea : Render32(ea[k]) # Render32(eb[k])}
 =============================================================================
